@@ -968,3 +968,54 @@ func VerifH13d() {
 		vAssert("abort-exactly-one-E-one-Z", out == "TGEZ")
 	}
 }
+
+// ---------------------------------------------------------------------------
+// H14v — values up to the message limit (C14, C10): with a limit of 64 bytes,
+// one text field whose value is 57..66 bytes long (its last byte symbolic),
+// the stream cut into CopyData messages of at most 60 payload bytes, so that the
+// tuple spans two or three messages. A value of at most 64 bytes is decoded to
+// exactly the bytes sent and the stream ends cleanly; a longer one is an error
+// or that same value — never another row.
+// ---------------------------------------------------------------------------
+func VerifH14v() {
+	n := 57 + vChoose(10)
+	val := make([]byte, n)
+	for i := range val {
+		val[i] = byte('a' + i%26)
+	}
+	val[n-1] = nondetByte()
+	stream := vCat(vCopyHeader, []byte{0, 1}, vU32(uint32(n)), val, []byte{0xff, 0xff})
+	chunk := 40 + vChoose(21) // 40..60
+	var input []byte
+	for i := 0; i < len(stream); i += chunk {
+		j := i + chunk
+		if j > len(stream) {
+			j = len(stream)
+		}
+		input = append(input, vMsgBytes('d', stream[i:j])...)
+	}
+	input = append(input, vMsgBytes('c', nil)...)
+	w := vNewWorld(input, 64)
+	cr := NewCopyReader(w.rd, w.wr, vTextColumns(1))
+	br, err := NewBinaryColumnReader(w.ctx, cr)
+	vAssert("column-reader-ok", err == nil)
+	row, rerr := br.Read(w.ctx)
+	if n <= 64 {
+		vAssert("a-value-up-to-the-limit-is-decoded", rerr == nil && len(row) == 1)
+		if rerr == nil && len(row) == 1 {
+			sv, isStr := row[0].(string)
+			vAssert("the-value-the-client-encoded", isStr && vEqStr(sv, string(val)))
+		}
+		_, end := br.Read(w.ctx)
+		vAssert("stream-ends-cleanly", end == io.EOF)
+		if n == 64 {
+			vReach("value-exactly-at-the-limit")
+		}
+	} else {
+		if rerr == nil {
+			sv, isStr := row[0].(string)
+			vAssert("never-another-row", len(row) == 1 && isStr && vEqStr(sv, string(val)))
+		}
+		vReach("value-above-the-limit")
+	}
+}
